@@ -132,6 +132,21 @@ pub fn cases(rng: &mut Rng, count: usize, tier: &str) -> Vec<Case> {
         }
         let method = rng.below(4) as u8;
         let mode = rng.below(4) as u8;
+        // one infinite distance (a user distance such as 1/similarity on unrelated sets).  With one-term input
+        // sets and the min / max reading of the table exactly one pair of live clusters is at distance +inf at
+        // any time (the one holding the two terms), so no ties arise; it is merged last.
+        let mut infinite = false;
+        if singletons && mode <= 1 && sets.len() >= 2 && rng.chance(1, 5) {
+            let i = rng.below(sets.len() as u64) as usize;
+            let mut j = rng.below(sets.len() as u64) as usize;
+            if j == i {
+                j = (i + 1) % sets.len();
+            }
+            let (x, y) = (sets[i][0], sets[j][0]);
+            table.insert((x, y), f32::INFINITY);
+            table.insert((y, x), f32::INFINITY);
+            infinite = true;
+        }
         let log: RefCell<Vec<Vec<(Vec<u32>, Vec<u32>)>>> = RefCell::new(vec![]);
         let cb = |combs: Combinations<HpoSet<'_>>| -> Vec<f32> {
             let mut pairs = vec![];
@@ -196,6 +211,9 @@ pub fn cases(rng: &mut Rng, count: usize, tier: &str) -> Vec<Case> {
         }
         if near {
             tags.push("near_ties");
+        }
+        if infinite {
+            tags.push("infinite_distance");
         }
         out.push(Case { input, obs, tags });
     }
